@@ -13,3 +13,4 @@ def run(ck):
     image.r20_4b_exchange_order(ck, P)
     image.r20_6_region_reinit(ck, P)
     image.r15_6_free_while_linked(ck, P)
+    image.r_no_dangling_after_free(ck, P, 'C20-R7')
